@@ -300,7 +300,8 @@ def p1_inv(st, rd):
     e = raw.off + raw.n; fl = S.FIDX(G, z3.BitVecVal(LF, 8), raw.off, e)
     goals += [("ghost: collected octets are the contiguous stream segment that ends at the read position", z3.And(z3.BoolVal(raw.arr.eq(G)), raw.n >= 1, raw.off >= 0, e == gp)),
               ("collected octets start with '/'", raw.at(0) == SLASH),
-              ("collected octets start with a complete ASCII identification line", z3.And(fl < e, S.ALLASCII(G, raw.off, fl + 1), S.IDENT(G, raw.off, fl + 1)))]
+              ("collected octets start with a complete ASCII identification line", z3.And(fl < e, S.ALLASCII(G, raw.off, fl + 1), S.IDENT(G, raw.off, fl + 1))),
+              ("collected octets end with a line end (only whole lines are collected)", G[e - 1] == LF)]
     return goals
 
 def p1_witness(hunt, tag="", extra=()):
